@@ -2,4 +2,4 @@
 From Coq Require Extraction ExtrOcamlBasic.
 From Falco Require Import Base.Bytes Model.Verdict Model.VerdictExt.
 Extraction Language OCaml.
-Extraction "verdict_model.ml" run_lint overrides_of cfg_of doc_files run_stats sev_of_string n2b b2n.
+Extraction "verdict_model.ml" run_lint overrides_of cfg_of flag_of_name yverbose_of doc_files run_stats sev_of_string n2b b2n.
